@@ -40,6 +40,10 @@ def run(ck):
         bad_rows = [r for r in rows if not r[4]]
         ck.obligation(f'state-dict round trip table: {len(rows)} restored attributes are filled from keys that export fills from the same attribute',
                       'translation', not bad_rows, f'inconsistent: {bad_rows}')
+        cex = fg.conditional_exports()
+        ck.obligation('keys that get_state_dict writes only under a condition are exactly the justified ones (solver: constructor-only; classification fields: '
+                      'under n_classes_ > 0, which is exported unconditionally) — a learned attribute exported only when "in use" is restored from the fresh model\'s '
+                      'constructor value otherwise', 'translation', cex == fg.CONDITIONAL_EXPORTS_OK, f'conditional exports found: {cex}')
         restored_x = af.writes_of(load_x) if not bad_rows else set()
         restored_l = {r[1] for r in rows if r[0] == 'leaf' and r[4]}
         mutable_x = af.writes_of(fit_x)
@@ -103,11 +107,16 @@ def run(ck):
             fv = np.zeros(d, dtype=np.float32); fv[0] = 1.0
             gate_kw = dict(split_method='fixed_vector', fixed_vector=torch.tensor(fv))
             tuned = False; fixedT = 0.3; L = max(L, n // 3)
-        desc = dict(i=i, kernel=kern, task=task, cmode=cmode, n_trees=n_trees, n=n, L=L, f=f, bw=bw, tuned=tuned, fixedT=fixedT, diag=bool(i % 2), tree_iters=int(i % 4 == 2 and not flat_gate), flat_gate=flat_gate, seed=ck.seed)
+        # a positive temperature is configured, tuning is on and selects hard routing (its only candidate is 0): the learned value None differs
+        # from the constructor value that a fresh model starts with
+        tuned_to_hard = (i % 8 == 4) and not flat_gate and not depth0
+        if tuned_to_hard:
+            tuned = True; fixedT = 0.6
+        desc = dict(i=i, kernel=kern, task=task, cmode=cmode, n_trees=n_trees, n=n, L=L, f=f, bw=bw, tuned=tuned, tuned_to_hard=tuned_to_hard, fixedT=fixedT, diag=bool(i % 2), tree_iters=int(i % 4 == 2 and not flat_gate), flat_gate=flat_gate, seed=ck.seed)
         ctor = dict(rfm_params=xr.default_rfm_params(kernel=kern, iters=1, diag=bool(i % 2), bandwidth=3.0, exponent=[1.0, 1.2][i % 2],
                                                      bandwidth_mode=bw, reg=1e-2, **extra),
                     max_leaf_size=L, n_trees=n_trees, overlap_fraction=f, verbose=False, classification_mode=cmode,
-                    use_temperature_tuning=tuned, split_temperature=fixedT, temp_tuning_space=[0.0, 0.1, 0.7, 2.5], refill_size=20,
+                    use_temperature_tuning=tuned, split_temperature=fixedT, temp_tuning_space=([0.0] if tuned_to_hard else [0.0, 0.1, 0.7, 2.5]), refill_size=20,
                     **(gate_kw if flat_gate else dict(split_method='random_global_agop', n_tree_iters=1) if i % 4 == 2 else {}))
         if i % 7 == 6:
             ctor['rfm_params'] = None          # the library's default leaf model (rfm_params=None)
